@@ -78,11 +78,22 @@ class Cache:
         of things that are convertable to strings.
         """
         if isinstance(arg, np.ndarray):
-            self.ahash.update(arg.view(np.uint8))
+            # Arrays with identical bytes but different data type or
+            # shape must not share a hash. The header also delimits
+            # the array data from those of adjacent arguments.
+            header = f"ndarray:{arg.dtype.str}:{arg.shape}:"
+            self.ahash.update(header.encode('utf-8'))
+            # `ascontiguousarray` is required for non-contiguous views
+            self.ahash.update(np.ascontiguousarray(arg).view(np.uint8))
         elif isinstance(arg, list):
+            self.ahash.update(f"list:{len(arg)}:".encode('utf-8'))
             [self._update_hash(a) for a in arg]
         else:
-            self.ahash.update(str(arg).encode('utf-8'))
+            data = str(arg).encode('utf-8')
+            # prepend type and length to delimit adjacent arguments
+            header = f"{type(arg).__name__}:{len(data)}:"
+            self.ahash.update(header.encode('utf-8'))
+            self.ahash.update(data)
 
     @staticmethod
     def clear_cache():
